@@ -10,8 +10,8 @@ excess = overflow.sum()                                           `excessOf`
 new_chunks = np.array(chunks) - overflow                          `floorChunks`
 valid_inds, invalid_inds = where(new == chunks), where(~...)      `validInds`, `invalidInds`
 chunk_modification_order = [*invalid_inds[argsort(new[invalid])],
-                            *valid_inds[argsort(new[valid])]]     `modificationOrder` (stable insertion sort —
-                                                                   what NumPy's argsort does on ≤ 16 elements)
+                            *valid_inds[argsort(new[valid])]]     `modificationOrder` (a stable argsort); the real
+                                                                   tie-breaking is a parameter (`…With order`)
 partitioned_excess, remainder = _partition(excess, multiple)      `excess / m` copies of `m`, `excess % m`
 for idx, extra in enumerate(partitioned_excess):
     new_chunks[chunk_modification_order[idx]] += extra            `bumpAll` (`none` = IndexError)
@@ -62,11 +62,12 @@ def bumpAll (m : Nat) : List Nat → List Nat → Option (List Nat)
   | [], new => some new
   | i :: is, new => if i < new.length then bumpAll m is (addAt m i new) else none
 
-/-- `aligned_coarsen_chunks(chunks, multiple)`; `none` = the Python raises (multiple 0, or an IndexError in the loop) -/
-def alignedCoarsenChunks (cs : List Nat) (m : Nat) : Option (List Nat) :=
+/-- `aligned_coarsen_chunks(chunks, multiple)` with the modification order as a parameter (the tie-breaking of
+    `np.argsort` among equal sizes is NumPy's business: quicksort / SIMD sorts are not stable);
+    `none` = the Python raises (multiple 0, or an IndexError in the loop) -/
+def alignedCoarsenChunksWith (order : List Nat) (cs : List Nat) (m : Nat) : Option (List Nat) :=
   if m = 0 then none else
   let k := excessOf m cs / m
-  let order := modificationOrder m cs
   if order.length < k then none else
   match bumpAll m (order.take k) (floorChunks m cs) with
   | none => none
@@ -74,6 +75,15 @@ def alignedCoarsenChunks (cs : List Nat) (m : Nat) : Option (List Nat) :=
     let rem := excessOf m cs % m
     let r := (new ++ (if rem = 0 then [] else [rem])).filter (fun c => decide (0 < c))
     some (if r.isEmpty then [0] else r)
+
+/-- what the loop needs of the order: in-range indices, at least `excess // multiple` of them
+    (every permutation of `range(len(chunks))` — any argsort — qualifies) -/
+def ValidOrder (order : List Nat) (cs : List Nat) (m : Nat) : Prop :=
+  (∀ i ∈ order, i < cs.length) ∧ excessOf m cs / m ≤ order.length
+
+/-- the function with a stable argsort -/
+def alignedCoarsenChunks (cs : List Nat) (m : Nat) : Option (List Nat) :=
+  alignedCoarsenChunksWith (modificationOrder m cs) cs m
 
 /-! ### da.coarsen along one axis -/
 
@@ -94,11 +104,15 @@ def coarsenDeclaredChunks (d : Nat) (aligned : List Nat) : List Nat :=
 
 /-- `da.coarsen(f, x, {0: d}, trim_excess)` for a 1-d `x` with chunks `cs` and values `xs`:
     the blocks of the result, in block order (`none` = an exception, at graph construction or at compute time) -/
-def daCoarsen {α β} (f : List α → β) (trim : Bool) (d : Nat) (cs : List Nat) (xs : List α) : Option (List (List β)) :=
+def daCoarsenWith {α β} (order : List Nat) (f : List α → β) (trim : Bool) (d : Nat) (cs : List Nat) (xs : List α) :
+    Option (List (List β)) :=
   if d = 0 then none else
   if !trim && sum cs % d != 0 then none else
-  match alignedCoarsenChunks cs d with
+  match alignedCoarsenChunksWith order cs d with
   | none => none
   | some aligned => optAll ((splitBy aligned xs).map (chunkCoarsen f trim d))
+
+def daCoarsen {α β} (f : List α → β) (trim : Bool) (d : Nat) (cs : List Nat) (xs : List α) : Option (List (List β)) :=
+  daCoarsenWith (modificationOrder d cs) f trim d cs xs
 
 end Dask.Counting
